@@ -1,5 +1,4 @@
-\* quick, exhaustive safety (defaults): 2 documents, 2 writers, 3 reservations, CachePendingSeqMaxNum 1, one-shot resume client,
-\* every feed behaviour (reorder, one redelivery, coalescing), failing and dying writers, timed abandonment.  Variants by environment (MC_Pipeline.tla).
+\* every behaviour of length PL_MAXSTEPS (8) of a tiny instance: CachePendingSeqMaxNum 0 (a waiting entry makes the cache skip at once)
 CONSTANT Docs <- EDocs
 CONSTANT Writers <- EWriters
 CONSTANT Base <- EBase
@@ -15,11 +14,11 @@ CONSTANT ContKeepsLow <- EKeepLow
 CONSTANT RecentCutAtUnused <- ERecentCut
 CONSTANT Mut <- EMut
 CONSTANT MaxSeq <- EMaxSeq
-CONSTANT MaxNum <- EMaxNum
-CONSTANT MaxSteps = 0
-CONSTANT RecordHist = FALSE
+CONSTANT MaxNum <- EMaxNum0
+CONSTANT MaxSteps <- EMaxSteps
+CONSTANT RecordHist = TRUE
 SPECIFICATION Spec
-VIEW view
+INVARIANT BehaviourExport
 INVARIANT ResumeSafe
 INVARIANT FeedSound
 INVARIANT OrderedPerResponse
